@@ -1244,7 +1244,8 @@ tp_threads_create(tp_p tp, const int skip_first) {
 
 	for (size_t i = ((0 != skip_first) ? 1 : 0); i < tp->s.threads_max; i ++) {
 		tpt = &tp->threads[i];
-		if (NULL == tpt->tp)
+		if (NULL == tpt->tp ||
+		    TP_THREAD_STATE_STOP != tpt->state) /* Not init / already started. */
 			continue;
 		tpt->state = TP_THREAD_STATE_STARTING;
 		error = pthread_create_eagain(&tpt->pt_id, NULL,
